@@ -17,6 +17,7 @@ import (
 	"fmt"
 	"os"
 	"strings"
+	"time"
 	"unicode"
 	"unicode/utf8"
 
@@ -361,9 +362,12 @@ func c14Replay(e *env) {
 
 func c14Run(e *env, bundles []*c14Bundle) {
 	var units []*c14Unit
+	tp := time.Now()
 	for _, b := range bundles {
 		units = append(units, c14Prepare(e, b)...)
 	}
+	c14T["prepare-total"] = time.Since(tp)
+	tn := time.Now()
 	// node, in batches
 	const batch = 60
 	for i := 0; i < len(units); i += batch {
@@ -373,7 +377,13 @@ func c14Run(e *env, bundles []*c14Bundle) {
 		}
 		c14Node(e, units[i:j], fmt.Sprintf("b%d", i/batch))
 	}
+	c14T["node"] = time.Since(tn)
+	tg := time.Now()
 	c14WfNegatives(e)
+	c14T["negatives"] = time.Since(tg)
+	if os.Getenv("C14_TIMING") != "" {
+		fmt.Fprintln(os.Stderr, "C14 timing:", c14T)
+	}
 	e.res.Note("node %s compiled and ran the generated files with soyjs/lib/soyutils.js; no JavaScript grammar is formalised in Coq: syntactic validity rests on this run", "20")
 	_ = os.Stderr
 	_ = utf8.RuneError
